@@ -2,7 +2,8 @@ ENTRY = {
     "C04": {
         "pkg": ".", "hdir": "dastard", "harness": DASTARD_COMMON + ["zz_verif_c04_test.go"], "test": "TestVerifC04",
         "gomaxprocs": 2,
-        "textpatch": [{"file": "lancero_source.go", "old": "ls.readPeriod = 50 * time.Millisecond", "new": "ls.readPeriod = lanceroReadPeriod"}],
+        "textpatch": [{"file": "lancero_source.go", "old": "ls.readPeriod = 50 * time.Millisecond", "new": "ls.readPeriod = lanceroReadPeriod"},
+                      {"file": "lancero_source.go", "old": "ticker := time.NewTicker(ls.readPeriod)", "new": "ticker := v04NewTicker(ls.readPeriod)"}],
         "quick": T(16, 90), "thorough": T(16, 600),
         "rule": "one execution = one (geometry, stream start offset, chunking of the byte stream into driver reads, external-trigger pattern, mix change, lost-byte gap) through the real "
                 "LanceroSource.PrepareChannels, PrepareRun, StartRun, launchLanceroReader, getNextBlock, ConfigureMixFraction and distributeData with a scripted card; every output sample is matched "
